@@ -57,6 +57,7 @@ def stepOp (rw : Rune → Int) (v : SimVariant) (enc : Encoder) (s : Sim) (op : 
   | ["Y", st] => ({ s with style := Cb.parseStyle st }, none)
   | ["C", x, y] => (s.setCursor (toInt! x) (toInt! y), none)
   | ["D"] => (s.hideCursorApi, none)
+  | ["L", x, y, w, h, on] => ({ s with back := lockRowsG s.back (toInt! x) (toInt! y) (toInt! w) (on = "1") (toInt! h).toNat }, none)
   | ["W"] => (s.showScr v enc, none)
   | ["N"] => (s.sync v enc, none)
   | ["Z", w, h] => (s.setSize v (toInt! w) (toInt! h), none)
